@@ -55,7 +55,10 @@ int main (void)
           struct sockaddr_in *b4 = (struct sockaddr_in *) &back;
           P (" rm=%d", mr == STUN_MESSAGE_RETURN_SUCCESS && b4->sin_family == AF_INET && b4->sin_port == sa.sin_port && b4->sin_addr.s_addr == sa.sin_addr.s_addr);
           uint16_t ul1 = 0, ul2 = 0; const void *u1 = stun_message_find (&m, STUN_ATTRIBUTE_USERNAME, &ul1), *u2 = stun_message_find (&rep, STUN_ATTRIBUTE_USERNAME, &ul2);
-          if (!u1) P (" ru=-"); else P (" ru=%d", u2 != NULL && ul1 == ul2 && !memcmp (u1, u2, ul1));
+          /* a reply without the RFC 5389 cookie carries attribute lengths rounded up to a multiple of 4 (RFC 3489 compatibility of stun_message_append):
+           * the echoed USERNAME then is the request's value followed by zero padding counted in its length */
+          size_t want = (stun_message_has_cookie (&rep) || (flags & STUN_AGENT_USAGE_NO_ALIGNED_ATTRIBUTES)) ? ul1 : (size_t) ((ul1 + 3) & ~3u);
+          if (!u1) P (" ru=-"); else P (" ru=%d", u2 != NULL && ul2 == want && !memcmp (u1, u2, ul1));
         }
         /* whatever length is reported must be a complete, well-formed message inside the output buffer */
         P (" rw=%d", ol == 0 ? 1 : (ol <= outcap && ol >= 20 && stun_message_validate_buffer_length (ob, ol, !(flags & STUN_AGENT_USAGE_NO_ALIGNED_ATTRIBUTES)) == (int) ol));
